@@ -10,7 +10,7 @@ Overview: Provides functions for matching rule IDs against ignore patterns. Supp
 
 Dependencies: re for regex operations, src.core.rule_aliases for alias resolution
 
-Exports: rule_matches, check_bracket_rules, check_space_separated_rules
+Exports: rule_matches, check_bracket_rules, check_space_separated_rules, named_rules
 
 Interfaces: rule_matches(rule_id, pattern) -> bool for checking if rule matches pattern
 
@@ -115,8 +115,30 @@ def check_space_separated_rules(rules_text: str, rule_id: str) -> bool:
     Returns:
         True if any pattern matches the rule ID
     """
-    ignored_rules = [r.strip() for r in re.split(r"[,\s]+", rules_text) if r.strip()]
+    ignored_rules = named_rules(rules_text)
+    if not ignored_rules:
+        return True  # only a reason follows the directive: it names no rule, so it covers all
     return any(rule_matches(rule_id, r) for r in ignored_rules)
+
+
+def named_rules(rules_text: str) -> list[str]:
+    """Rule names of a space or comma separated list, up to the reason that may follow it.
+
+    `dry - the nesting here is fine` names only `dry`: the list ends at a lone dash or a `//` comment.
+
+    Args:
+        rules_text: Text following the directive keyword
+
+    Returns:
+        The rule patterns named before the reason
+    """
+    names: list[str] = []
+    for token in re.split(r"[,\s]+", rules_text):
+        if token in ("-", "--") or token.startswith("//"):
+            break
+        if token:
+            names.append(token)
+    return names
 
 
 def rules_match_violation(ignored_rules: set[str], rule_id: str) -> bool:
